@@ -889,7 +889,7 @@ impl ReqFamily for Docs {
         "documentation-and-extremes/operations with every @param/@returns shape (single, tuple, member named like a parameter, missing, links, @see); enumerator values at the extremes of all 12 integral types; discriminant and tag extremes".into()
     }
     fn len(&self) -> u64 {
-        10 + 12 + 2
+        10 + 12 + 2 + 3
     }
     fn get(&self, idx: u64) -> ReqCase {
         let i32t = || MType::prim("int32");
@@ -922,6 +922,18 @@ impl ReqFamily for Docs {
             }
             f.defs.push(d);
             label = format!("enumerator extremes of {p}");
+        } else if idx >= 24 {
+            // a documented SINGLE return that is tagged / streamed / carries a local attribute: its documentation is the
+            // unnamed @returns
+            let ret = match idx {
+                24 => MRet::Single { tag: Some(MInt::dec(1)), stream: false, ty: i32t().opt() },
+                25 => MRet::Single { tag: None, stream: true, ty: MType::prim("uint8") },
+                _ => MRet::Single { tag: None, stream: false, ty: i32t().attr(MAttr::new("cs::x")) },
+            };
+            let mut o = op("op", vec![MParam::new("a", i32t())], ret);
+            o.c = o.c.doc(&[" @param a: the a", " @returns: the value"]);
+            f.defs.push(iface("I", vec![], vec![o]));
+            label = format!("documented single return, shape {idx}");
         } else if idx == 22 {
             f.defs.push(en("V", None, vec![MEnumerator { c: MCommon::new("Zero"), fields: Some(vec![MField::tagged("t", 2147483647, i32t().opt()), MField::tagged("u", 0, i32t().opt())]), value: Some(MInt::dec(0)) }, enumerator_v("Max", MInt::dec(2147483647))]));
             label = "discriminant and tag extremes".to_string();
